@@ -4,6 +4,7 @@ import (
 	"context"
 	"reflect"
 
+	"github.com/hashicorp/eventlogger"
 	"github.com/hashicorp/go-kms-wrapping/v2/aead"
 )
 
@@ -177,6 +178,18 @@ func symEnv() *cenv {
 	return c
 }
 
+// checkPrivateEvent: the forwarded copy shares no mutable state with the original event: what a later node of this
+// pipeline stores in the copy's format table is not seen by (and does not race with) other pipelines holding the original
+func checkPrivateEvent(e, out *eventlogger.Event, tag string) {
+	if out == nil || out == e {
+		return
+	}
+	verifAssert(out.Type == e.Type, tag+".event-type-kept")
+	out.FormattedAs("verif-later", []byte("v"))
+	_, leaked := e.Format("verif-later")
+	verifAssert(!leaked, tag+".formatted-table-not-shared")
+}
+
 // C09 + C10 on a struct payload reached through a pointer
 func H_C09_struct() {
 	c := symEnv()
@@ -208,6 +221,7 @@ func H_C09_struct() {
 	if out == nil {
 		return
 	}
+	checkPrivateEvent(e, out, "C10.struct")
 	op, ok := out.Payload.(*pLeaf)
 	verifAssert(ok && op != in, "C10.struct.same-dynamic-type-distinct-object")
 	if !ok {
@@ -245,6 +259,7 @@ func H_C09_nested() {
 		}
 		return
 	}
+	checkPrivateEvent(e, out, "C10.nested")
 	op, ok := out.Payload.(*pNested)
 	verifAssert(ok && op != in && op.Inner != in.Inner, "C10.nested.deep-copy")
 	if !ok || op.Inner == nil {
@@ -350,6 +365,7 @@ func H_C09_toplevel() {
 	if out == nil {
 		return
 	}
+	checkPrivateEvent(e, out, "C10.toplevel")
 	switch kind {
 	case 0:
 		m, ok := out.Payload.(map[string]interface{})
